@@ -110,6 +110,22 @@ def rec_eq(g1, g2) -> dict:
             "eq_str": eq_str, "str_ok": str_ok, "cde": list(cde.encode()), "eqs": eqs, "fcde": fcde}
 
 
+def rec_registry() -> dict:
+    """Growth (DESIGN §12): the OBIS registry tables of han/obis_map.py, projected onto (C.D.E, field name) pairs."""
+    from han import obis_map
+    from han.obis import Obis
+    table, bad = [], []
+    for code, name in sorted(obis_map.obis_name_map.items()):
+        try:
+            t = Obis.from_string(code).as_tupple()
+            table.append({"cde": [int(t[2]), int(t[3]), NONE if t[4] is None else int(t[4])], "name": str(name)})
+        except Exception as ex:  # noqa: BLE001
+            bad.append(f"{code!r}: {type(ex).__name__}")
+    inverse = sorted((code, name) for name, codes in obis_map.name_obis_map.items() for code in codes)
+    return {"id": "registry", "canary": "", "kind": "registry", "table": table, "unparsable": len(bad),
+            "inverse_ok": inverse == sorted(obis_map.obis_name_map.items()), "size": len(obis_map.obis_name_map)}
+
+
 def rand_groups(rng: random.Random):
     vals = [0, 1, 9, 10, 99, 100, 255, rng.randint(0, 255), rng.randint(0, 255)]
     opt = lambda: NONE if rng.random() < 0.4 else rng.choice(vals)  # noqa: E731
@@ -179,6 +195,7 @@ def run_c20(chk: Check) -> int:
                 recs.append(rec_malformed(w.replace(".", rp)))
         recs.append(rec_malformed(w.replace(".", "")))
         recs.append(rec_malformed(_re.sub(r"\d", "x", w)))
+    recs.append(rec_registry())
     # unique ids, canaries
     seen, uniq = set(), []
     for r in recs:
@@ -196,13 +213,18 @@ def run_c20(chk: Check) -> int:
             c["got"][2] = (c["got"][2] + 1) % 256
         c["canary"], c["id"] = kind, "canary-" + kind
         recs.append(c)
+    c = copy.deepcopy(next(r for r in recs if r["kind"] == "registry"))
+    c["table"][0]["name"], c["canary"], c["id"] = "meter_type", "registry", "canary-registry"
+    recs.append(c)
     verdicts = chk.judge("obis", "Trace_Obis", recs, what="c20-ops")
     for r, v in zip(recs, verdicts):
         if r["canary"]:
             continue
         chk.count(r["id"])
         if v["ok"] and v.get("drift"):
-            chk.drift(f"Obis({r['g1']}).filter_group_cde() = {r['fcde']} (growth clause {v['drift']}, not part of C20)")
+            chk.drift(f"han.obis_map tables differ from spec/common/ObisMap.tla NameTable: {r['table'][:4]}... size {r['size']} (growth clause {v['drift']}, not part of C20)"
+                      if r["kind"] == "registry" else
+                      f"Obis({r['g1']}).filter_group_cde() = {r['fcde']} (growth clause {v['drift']}, not part of C20)")
         if not v["ok"]:
             if v["clause"] == "plan":
                 from .tlc import MachineryError
@@ -230,6 +252,8 @@ def replay_c20(chk: Check, rp: dict) -> int:
         n = rec_malformed(bytes(r["text"]).decode("latin1"))
     elif r["kind"] == "roundtrip":
         n = rec_roundtrip(r["groups"])
+    elif r["kind"] == "registry":
+        n = rec_registry()
     else:
         n = rec_eq(r["g1"], r["g2"])
     v = chk.judge("obis", "Trace_Obis", [n], what="replay")[0]
